@@ -1,7 +1,12 @@
-(* Tie for C07.  A case = (spec graph, interface flags, history, observed answers) exactly as
-   for the shared registry tie (Tie/RegCommon.v).
-   check_model : Model/RegSys.run (Model/Adapter.v storage + walkers, the object of the theorems
-                 of Properties/C07.v) gives the same answers as the implementation.
+(* Tie for C07.  A case = (initial spec graph, interface flags, history, observed answers).  The
+   history is in the op language of Model/CacheSys.v: every registry operation of Model/RegSys.v
+   (CReg) plus re-basing of a specification (CSetSpecBases: ``x.__bases__ = ...`` on an interface,
+   classImplements on a class), so that the specification world may CHANGE between queries; a
+   static-world history simply has no CSetSpecBases.
+   check_model : Model/CacheSys.crun_fast (= crun, Proofs/CacheSys.v crun_fast_eq; RegSys.step over
+                 Model/Adapter.v storage + walkers, the object of the theorems of
+                 Properties/C07.v, in the world of the current graph) gives the same answers as
+                 the implementation.
    check_spec  : the implementation's answers are judged directly against the ledger Spec
                  (Spec/SubsSpec.v), WITHOUT Model/Adapter's storage functions or walkers: the
                  history is replayed into one ledger per registry (lstep), the registry
@@ -12,13 +17,16 @@
                  concatenation of the per-provided groups (each in ledger order) in some order of
                  the provided interfaces — the one freedom the property leaves.
                  ``subscribed`` / ``allSubscriptions`` are compared with the ledger;
-                 ``subscribers`` must call exactly such a list and return the non-None results. *)
+                 ``subscribers`` must call exactly such a list and return the non-None results.
+                 The world used for a query is recomputed (Model.Ro.fresh_sro) from the graph as it
+                 is AT THAT QUERY; caches are no part of the Spec, so a stale cached answer (after
+                 a registry or specification change) is a contradiction with a concrete input. *)
 From Coq Require Import List Arith Bool.
 Import ListNotations.
-From ZI Require Export Tie.RegCommon.
+From ZI Require Export Tie.RegCommon Model.CacheSys.
 From ZI Require Import Spec.SubsSpec.
 
-Definition case_t := hist_case.
+Definition case_t := (graph * list bool * list cop * list (list nat))%type.
 
 (* The shared interpreter separates results from called values in a ``subscribers`` answer by
    999999; a unary nat of that size costs ~25 MB per occurrence in a case file, so the harness
@@ -26,7 +34,8 @@ Definition case_t := hist_case.
    is unambiguous) and the model's answers are mapped the same way before comparison. *)
 Definition MARK : nat := 999999.
 Definition demark (a : list nat) : list nat := map (fun x => if Nat.eqb x MARK then 0 else x) a.
-Definition model_out (c : case_t) : list (list nat) := map demark (hist_model_out c).
+Definition model_out (c : case_t) : list (list nat) :=
+  let '(g, ifs, ops, _) := c in map demark (crun_fast call (mkCS g ifs []) ops).
 Definition check_model (c : case_t) : bool :=
   let '(_, _, _, obs) := c in llnat_eqb (model_out c) obs.
 
@@ -155,22 +164,30 @@ Definition spec_step (W : world) (st : sstate) (o : rop) (a : list nat) : sstate
   | _ => (st, true)      (* adapter registrations, rebuild(), other queries: not C07's subject *)
   end.
 
-Fixpoint spec_run (W : world) (st : sstate) (ops : list rop) (obs : list (list nat)) : bool :=
+Fixpoint spec_run (ifs : list bool) (g : graph) (W : world) (st : sstate) (ops : list cop)
+         (obs : list (list nat)) : bool :=
   match ops, obs with
   | [], [] => true
-  | o :: ops', a :: obs' => let '(st', ok) := spec_step W st o a in ok && spec_run W st' ops' obs'
+  | CReg o :: ops', a :: obs' =>
+      let '(st', ok) := spec_step W st o a in ok && spec_run ifs g W st' ops' obs'
+  | CSetSpecBases x bs :: ops', a :: obs' =>
+      let g' := set_spec_bases g x bs in
+      match a with [] => spec_run ifs g' (world_of g' ifs) st ops' obs' | _ => false end
   | _, _ => false
   end.
 
 Definition check_spec (c : case_t) : bool :=
-  let '(g, ifs, ops, obs) := c in spec_run (mk_world g ifs) [] ops obs.
+  let '(g, ifs, ops, obs) := c in spec_run ifs g (world_of g ifs) [] ops obs.
 
 (* diagnostics: index of the first op whose answer the Spec rejects (length = none) *)
-Fixpoint spec_first_bad (W : world) (st : sstate) (ops : list rop) (obs : list (list nat)) (i : nat) : nat :=
+Fixpoint spec_first_bad (ifs : list bool) (g : graph) (W : world) (st : sstate) (ops : list cop)
+         (obs : list (list nat)) (i : nat) : nat :=
   match ops, obs with
-  | o :: ops', a :: obs' => let '(st', ok) := spec_step W st o a in
-                            if ok then spec_first_bad W st' ops' obs' (S i) else i
+  | CReg o :: ops', a :: obs' => let '(st', ok) := spec_step W st o a in
+                                 if ok then spec_first_bad ifs g W st' ops' obs' (S i) else i
+  | CSetSpecBases x bs :: ops', a :: obs' =>
+      let g' := set_spec_bases g x bs in spec_first_bad ifs g' (world_of g' ifs) st ops' obs' (S i)
   | _, _ => i
   end.
 Definition first_bad (c : case_t) : nat :=
-  let '(g, ifs, ops, obs) := c in spec_first_bad (mk_world g ifs) [] ops obs 0.
+  let '(g, ifs, ops, obs) := c in spec_first_bad ifs g (world_of g ifs) [] ops obs 0.
